@@ -1450,7 +1450,7 @@ func (d *Data) storeAndUpdate(ctx *datastore.VersionedCtx, keyStr string, newDat
 		d.DataName(), ctx.User, conditionals, replace, origJSON, rcvJSON, newJSON)
 
 	// write result
-	mdb, found := d.getMemDBbyVersion(ctx.VersionID())
+	mdb, found := d.getMemDBtoUpdate(ctx.VersionID())
 	if found {
 		mdb.mu.Lock()
 
@@ -1583,7 +1583,7 @@ func (d *Data) DeleteData(ctx storage.VersionedCtx, keyStr string) error {
 	if err != nil {
 		return err
 	}
-	mdb, found := d.getMemDBbyVersion(ctx.VersionID())
+	mdb, found := d.getMemDBtoUpdate(ctx.VersionID())
 	if found {
 		mdb.mu.Lock()
 		_, found := mdb.data[bodyid]
